@@ -48,9 +48,13 @@ def run_batch(model, prop, items, use_driver=True, keep_samples=2):
            "distinct": [], "corr_fail": [], "mon_fail": [], "known": [], "samples": [], "extra": {}}
     text = []
     meta = []
-    for idx, (sc, ck, cs, choices) in enumerate(items):
-        chooser = ds.replay_chooser(choices) if choices is not None else mk_chooser(ck, cs, model.est_steps(sc))
-        r = model.run(sc, chooser, cs)
+    for idx, item in enumerate(items):
+        sc, ck, cs, choices = item[:4]
+        if len(item) > 4:
+            r = item[4]          # already executed (systematic exploration)
+        else:
+            chooser = ds.replay_chooser(choices) if choices is not None else mk_chooser(ck, cs, model.est_steps(sc))
+            r = model.run(sc, chooser, cs)
         res["evaluations"] += 1
         res["transitions"] += r["steps"]
         res["context_switches"] += r["switches"]
@@ -96,6 +100,60 @@ def run_batch(model, prop, items, use_driver=True, keep_samples=2):
                 sc, r = meta[i]
                 res["corr_fail"].append({"msg": "%s: driver produced no verdict" % model.name, "mode": model.mode,
                                          "replay": {"model": model.name, "scenario": sc, "choices": r["choices"]}})
+    return res
+
+
+def smallest_of(gen, n=10):
+    """a small-scenario generator out of an ordinary one: the shortest (as JSON) of n samples"""
+    def gen_small(rng, prop, job):
+        best = None
+        for _ in range(n):
+            sc = gen(rng, prop, job)
+            if best is None or len(json.dumps(sc)) < len(json.dumps(best)):
+                best = sc
+        return best
+    return gen_small
+
+
+def pbound_job(model, gen_small, job):
+    """systematic exploration (iterative context bounding): ALL schedules of one small scenario that deviate from the
+    non-pre-emptive default schedule at no more than `k` decisions, up to `budget` runs"""
+    prop = job["prop"]
+    rng = random.Random(job["seed"])
+    sc = gen_small(rng, prop, job)
+    k = job.get("k", 2)
+    budget = job.get("budget", 2500)
+    items = []
+    stack = [({}, 0)]
+    exhausted = True
+    per_level = {}
+    while stack:
+        if len(items) >= budget:
+            exhausted = False
+            break
+        devs, start = stack.pop()
+        r = model.run(sc, ds.deviation_chooser(devs), 0)
+        items.append((sc, None, 0, list(r["choices"]), r))
+        per_level[len(devs)] = per_level.get(len(devs), 0) + 1
+        if r["outcome"] == "hung":
+            break
+        if len(devs) < k:
+            counts = r.get("cand_counts") or []
+            ch = r["choices"]
+            for i in range(min(len(ch), len(counts)) - 1, start - 1, -1):
+                for alt in range(counts[i]):
+                    if alt != ch[i] % max(counts[i], 1):
+                        d2 = dict(devs)
+                        d2[i] = alt
+                        stack.append((d2, i + 1))
+    res = run_batch(model, prop, items, use_driver=not job.get("no_driver"))
+    if "infra_error" in res:
+        return res
+    res["extra"]["pbound_scenarios"] = 1
+    res["extra"]["pbound_runs"] = len(items)
+    res["extra"]["pbound_exhausted_k%d" % k] = 1 if exhausted else 0
+    for lv, n in per_level.items():
+        res["extra"]["pbound_runs_with_%d_deviations" % lv] = n
     return res
 
 
